@@ -66,7 +66,7 @@ def _jac(ctx, p, rng):
     N, M = p['N'], p['M']
     polys = [PP.random_poly(rng, N, 4, 4) for _ in range(M)]
     x = _point(rng, N, p['point']); xq = [Fraction(float(v)) for v in x]
-    v = _point(rng, N, p['point']); vq = [Fraction(float(t)) for t in v]
+    v = np.round(rng.normal(size=N) * 1.5, 3); vq = [Fraction(float(t)) for t in v]          # directions are never integer-valued
     style = int(rng.integers(6))
     # --- init_jacobian / extract_jacobian
     try:
@@ -114,7 +114,7 @@ def _hess(ctx, p, rng):
     N = p['N']
     poly = PP.random_poly(rng, N, 5, 5)
     x = _point(rng, N, p['point']); xq = [Fraction(float(v)) for v in x]
-    v = _point(rng, N, p['point']); vq = [Fraction(float(t)) for t in v]
+    v = np.round(rng.normal(size=N) * 1.5, 3); vq = [Fraction(float(t)) for t in v]
     style = int(rng.integers(6))
     try:
         X = UTPM.init_hessian(x.copy())
